@@ -341,9 +341,11 @@ class Program(object):
                 s.setdefault('_tu', tu)
                 # a lambda inside a function template: the extractor names it by source position only, so the closures of all
                 # instantiations would share one id (and one body, with the local declarations of whichever came first)
-                if s.get('kind') == 'lambda' and '::(anonymous class)::' in s.get('q', '') and ' in ' not in s['id']:
+                # (also the specialisations of a generic lambda's operator(), whose kind is not 'lambda', and closures of function templates
+                # whose printed name carries the parameter types instead of template arguments)
+                if '::(anonymous class)::' in s.get('q', '') and ' in ' not in s['id']:
                     encl = s['q'].split('::(anonymous class)::')[0]
-                    if '<' in encl:
+                    if '<' in encl or '(' in encl:
                         s['id'] = s['id'] + ' in ' + encl
                 if s['id'] not in self.syms:
                     self.syms[s['id']] = s
